@@ -24,6 +24,15 @@ pub fn chunkings(fe: &Fe, bs: usize, l: usize, kind: Kind) -> Vec<Vec<P>> {
     for s in split_points(bs, l, fe.gran) {
         v.push(vec![p(s, kind), p(l - s, kind)]);
     }
+    // long inputs through byte-granular stateful front-ends: short piece, long unaligned piece, rest
+    if fe.gran == 1 && l >= 8 * bs && kind == fe.kinds[0] {
+        let pts = boundary_points(bs, l);
+        for a in [1usize, (bs / 2).max(1), bs.saturating_sub(1).max(1)] {
+            for &b in pts.iter().filter(|b| **b > a + 3 * bs) {
+                v.push(vec![p(a, kind), p(b - a, kind), p(l - b, kind)]);
+            }
+        }
+    }
     v
 }
 
